@@ -69,6 +69,7 @@ func propJanitor(c *Case) {
 			TimeToLive: cfgTTL, ExpirationJitter: jit,
 			DeleteExpiredJobInterval: interval, DeleteExpiredAfter: dea,
 			HeapInUseSoftLimit: heapLimit, SysMemSoftLimit: sysLimit, CountSoftLimit: countLimit,
+			EvictFraction: 0.5, // a spurious eviction must be visible with a handful of entries
 		})
 		d := newMapDriver(c, be, cfgTTL, jit)
 		synctest.Wait() // janitor armed its first timer at t0
